@@ -48,20 +48,40 @@ def elements():
 
 
 def species(acc, slot, kind):
-    """slot 1 of a two-species accessor: hydrogen / deuterium; every other species: carbon / carbon13"""
+    """slot 1 of a two-species accessor: hydrogen / deuterium / tritium; every other species: carbon / carbon13 / carbon12
+    (kind: "el", "iso" = first isotope, "iso2" = a second isotope of the same element)"""
     e = elements()
     if acc.slots == 2 and slot == 1:
-        return e.deuterium if kind == "iso" else e.hydrogen
-    return e.carbon13 if kind == "iso" else e.carbon
+        return {"el": e.hydrogen, "iso": e.deuterium, "iso2": e.tritium}[kind]
+    return {"el": e.carbon, "iso": e.carbon13, "iso2": e.carbon12}[kind]
 
 
-def wl_key(acc, sp1, sp2):
+def variant_key(acc, v):
+    """the two repository keys (variant 0 / 1) an accessor can be asked for: a different charge, transition or
+    metastable.  Returns (charge-like, transition, metastable)."""
+    n = acc.name
+    if n in ("ionisation_rate", "recombination_rate", "line_radiated_power_rate", "continuum_radiated_power_rate",
+             "cx_radiated_power_rate"):
+        return CH + v, None, None
+    if n in ("thermal_cx_rate", "beam_stopping_rate"):
+        return RCH - v, None, None
+    if n == "beam_population_rate":
+        return RCH, None, MS + v
+    if n in ("beam_cx_pec", "thermal_cx_pec"):
+        return RCH, (9, 8) if v else TR2, MS
+    if n == "beam_emission_pec":
+        return RCH, (4, 2) if v else TR, None
+    return CH, (4, 2) if v else TR, None          # wavelength, impact_excitation_pec, recombination_pec
+
+
+def wl_key(acc, sp1, sp2, v=0):
     """(species, charge, transition) whose wavelength converts photons to watts"""
+    ch, tr, _ = variant_key(acc, v)
     if acc.name in ("beam_cx_pec", "thermal_cx_pec"):
-        return sp2, RCH - 1, TR2
+        return sp2, RCH - 1, tr
     if acc.name == "beam_emission_pec":
-        return sp1, 0, TR
-    return sp1, CH, TR
+        return sp1, 0, tr
+    return sp1, CH, tr
 
 
 # ---- tables --------------------------------------------------------------------------------------
@@ -77,70 +97,73 @@ def scaled(family, data, f):
     return d
 
 
-def store_rate(acc, repo, sp1, sp2, data, otherkey=False):
-    """write `data` for (sp1, sp2) with the repository's own functions; otherkey: under a different
-    charge / transition / metastable, so that the file exists but the requested key does not"""
+def store_rate(acc, repo, sp1, sp2, data, otherkey=False, variant=None):
+    """write `data` for (sp1, sp2) with the repository's own functions under key variant 0 / 1
+    (otherkey=True is variant 1: the file exists but the key asked for with variant 0 does not)"""
     from cherab.openadas import repository as R
     d = copy.deepcopy(data)
     n = acc.name
+    v = (1 if otherkey else 0) if variant is None else variant
+    ch, tr, ms = variant_key(acc, v)
     adf11 = lambda: {"ne": d["ne"], "te": d["te"], "rates": d["rate"]}
     if n == "ionisation_rate":
-        R.add_ionisation_rate(sp1, CH + 1 if otherkey else CH, adf11(), repository_path=repo)
+        R.add_ionisation_rate(sp1, ch, adf11(), repository_path=repo)
     elif n == "recombination_rate":
-        R.add_recombination_rate(sp1, CH + 1 if otherkey else CH, adf11(), repository_path=repo)
+        R.add_recombination_rate(sp1, ch, adf11(), repository_path=repo)
     elif n == "thermal_cx_rate":
-        R.add_thermal_cx_rate(sp1, 0, sp2, {(RCH - 1 if otherkey else RCH): adf11()}, repository_path=repo)
+        R.add_thermal_cx_rate(sp1, 0, sp2, {ch: adf11()}, repository_path=repo)
     elif n == "beam_cx_pec":
-        R.add_beam_cx_rate(sp1, MS, sp2, RCH, (9, 8) if otherkey else TR2, d, repository_path=repo)
+        R.add_beam_cx_rate(sp1, ms, sp2, ch, tr, d, repository_path=repo)
     elif n == "beam_stopping_rate":
-        R.add_beam_stopping_rate(sp1, sp2, RCH - 1 if otherkey else RCH, d, repository_path=repo)
+        R.add_beam_stopping_rate(sp1, sp2, ch, d, repository_path=repo)
     elif n == "beam_population_rate":
-        R.add_beam_population_rate(sp1, MS + 1 if otherkey else MS, sp2, RCH, d, repository_path=repo)
+        R.add_beam_population_rate(sp1, ms, sp2, ch, d, repository_path=repo)
     elif n == "beam_emission_pec":
-        R.add_beam_emission_rate(sp1, sp2, RCH, (4, 2) if otherkey else TR, d, repository_path=repo)
+        R.add_beam_emission_rate(sp1, sp2, ch, tr, d, repository_path=repo)
     elif n == "impact_excitation_pec":
-        R.add_pec_excitation_rate(sp1, CH, (4, 2) if otherkey else TR, d, repository_path=repo)
+        R.add_pec_excitation_rate(sp1, ch, tr, d, repository_path=repo)
     elif n == "recombination_pec":
-        R.add_pec_recombination_rate(sp1, CH, (4, 2) if otherkey else TR, d, repository_path=repo)
+        R.add_pec_recombination_rate(sp1, ch, tr, d, repository_path=repo)
     elif n == "thermal_cx_pec":
-        R.add_pec_thermal_cx_rate(sp1, 0, sp2, RCH, (9, 8) if otherkey else TR2, d, repository_path=repo)
+        R.add_pec_thermal_cx_rate(sp1, 0, sp2, ch, tr, d, repository_path=repo)
     elif n == "line_radiated_power_rate":
-        R.add_line_power_rate(sp1, CH + 1 if otherkey else CH, adf11(), repository_path=repo)
+        R.add_line_power_rate(sp1, ch, adf11(), repository_path=repo)
     elif n == "continuum_radiated_power_rate":
-        R.add_continuum_power_rate(sp1, CH + 1 if otherkey else CH, adf11(), repository_path=repo)
+        R.add_continuum_power_rate(sp1, ch, adf11(), repository_path=repo)
     elif n == "cx_radiated_power_rate":
-        R.add_cx_power_rate(sp1, CH + 1 if otherkey else CH, adf11(), repository_path=repo)
+        R.add_cx_power_rate(sp1, ch, adf11(), repository_path=repo)
     else:
         raise KeyError(n)
 
 
-def store_wavelength(acc, repo, sp1, sp2, value):
+def store_wavelength(acc, repo, sp1, sp2, value, variant=0):
     from cherab.openadas import repository as R
-    s, ch, tr = wl_key(acc, sp1, sp2)
+    s, ch, tr = wl_key(acc, sp1, sp2, variant)
     R.add_wavelength(s, ch, tr, value, repository_path=repo)
 
 
-def call(acc, adas, sp1, sp2):
+def call(acc, adas, sp1, sp2, variant=0):
     n = acc.name
+    ch, tr, ms = variant_key(acc, variant)
     if n == "wavelength":
-        return adas.wavelength(sp1, CH, TR)
+        return adas.wavelength(sp1, ch, tr)
     if n in ("ionisation_rate", "recombination_rate", "line_radiated_power_rate", "continuum_radiated_power_rate",
              "cx_radiated_power_rate"):
-        return getattr(adas, n)(sp1, CH)
+        return getattr(adas, n)(sp1, ch)
     if n == "thermal_cx_rate":
-        return adas.thermal_cx_rate(sp1, 0, sp2, RCH)
+        return adas.thermal_cx_rate(sp1, 0, sp2, ch)
     if n == "beam_cx_pec":
-        return adas.beam_cx_pec(sp1, sp2, RCH, TR2)
+        return adas.beam_cx_pec(sp1, sp2, ch, tr)
     if n == "beam_stopping_rate":
-        return adas.beam_stopping_rate(sp1, sp2, RCH)
+        return adas.beam_stopping_rate(sp1, sp2, ch)
     if n == "beam_population_rate":
-        return adas.beam_population_rate(sp1, MS, sp2, RCH)
+        return adas.beam_population_rate(sp1, ms, sp2, ch)
     if n == "beam_emission_pec":
-        return adas.beam_emission_pec(sp1, sp2, RCH, TR)
+        return adas.beam_emission_pec(sp1, sp2, ch, tr)
     if n in ("impact_excitation_pec", "recombination_pec"):
-        return getattr(adas, n)(sp1, CH, TR)
+        return getattr(adas, n)(sp1, ch, tr)
     if n == "thermal_cx_pec":
-        return adas.thermal_cx_pec(sp1, 0, sp2, RCH, TR2)
+        return adas.thermal_cx_pec(sp1, 0, sp2, ch, tr)
     raise KeyError(n)
 
 
